@@ -95,4 +95,28 @@ CHECKS = {
         "assumptions": DUAL_ASSUMPTIONS,
         "uncovered": [],
     },
+    "C18": {
+        "units": ["dual_ops"],
+        "level": "proof",
+        "assumptions": DUAL_ASSUMPTIONS + AD_ASSUMPTIONS + [
+            "PartialEq / PartialOrd of Number are verified as free functions (the trait impls only forward to them) because core's comparison traits cannot carry the 'not a Dual/Dual2 mix' precondition",
+            "R8': in the refusal copies `panic!` is a diverging call; each copy is verified against `ensures false` under the precondition that the operands are a Dual/Dual2 mix",
+        ],
+        "uncovered": [
+            "Sum for Number, abs_sub / signum / is_positive / is_negative of the Signed impls, Num::from_str_radix, NumberOps marker impls: not under contract",
+            "the Python-facing wrappers in dual_py.rs",
+        ],
+    },
+    "C19": {
+        "units": ["dual_ops"],
+        "level": "proof",
+        "assumptions": DUAL_ASSUMPTIONS + [
+            "x % y on floats is x - trunc(x / y) * y with trunc an uninterpreted real function (no property of trunc is needed: the contract states the remainder rule in terms of the same trunc)",
+            "Iterator::fold specified eagerly (chain of accumulators)",
+        ],
+        "uncovered": [
+            "abs at exactly zero (the property is silent there)",
+            "Sum for Number (needs 'no Dual/Dual2 mix in the sequence')",
+        ],
+    },
 }
